@@ -1044,7 +1044,7 @@ fn run_c04(sim: &Sim, cfg: &RunCfg) -> RunOut {
         gen_session(
             t,
             &GenOpts {
-                max_items: 12,
+                max_items: if cfg.tier == Tier::Thorough { 24 } else { 12 },
                 fail_rate: 25,
                 seg_mode: if seg { Some(2) } else { None },
                 forced_type: Some(cfg.index % N_FREQ_TYPES),
